@@ -143,20 +143,45 @@ def reads_ok(o, L, probe):
             return 'todict_values'
     if not peq(o.counts().items(multi=True), [(k, len(m_list(L, k))) for k in keys]):
         return 'counts'
-    # internal consistency of the two structures (strengthening; attributes are documented in the anchors)
-    d_items = list(dict.items(o))
-    if len(d_items) != len(keys):
-        return 'dict_storage_keys'
-    for k, vals in d_items:
-        if not isinstance(vals, list) or not veq(vals, m_list(L, k)):
-            return 'dict_storage_values'
-    mp = getattr(o, '_map', None)
-    if mp is not None:
-        if len(mp) != len(keys):
-            return 'map_keys'
-        for k in keys:
-            if len(mp[k]) != len(m_list(L, k)):
-                return 'map_cells'
+    return None
+
+
+def stress_epilogue(o, L, extra_keys):
+    """Public-API stress after the operation: latent corruption of the internal structures must
+    not surface later.  Every key ever involved gets a pair appended and its last pair popped,
+    then every key is deleted, with the ordered reads compared after each step."""
+    keys = m_keys(L)
+    for k in extra_keys:
+        if k not in keys:
+            keys.append(k)
+    tok = 7000
+    for k in keys:
+        tok += 1
+        o.add(k, tok)
+        L = L + [(k, tok)]
+        if not peq(o.items(multi=True), L) or not veq(o.getlist(k), m_list(L, k)):
+            return 'epilogue_add'
+    for k in keys[:1]:
+        r = o.poplast(k)
+        idx = max(i for i, (a, b) in enumerate(L) if a == k)
+        if not (r == L[idx][1]):
+            return 'epilogue_poplast_return'
+        L = L[:idx] + L[idx + 1:]
+        if not peq(o.items(multi=True), L):
+            return 'epilogue_poplast'
+    for k in keys:
+        if not m_has(L, k):
+            if k in o:
+                return 'epilogue_ghost_key'
+            continue
+        del o[k]
+        L = [(a, b) for a, b in L if not (a == k)]
+        if not peq(o.items(multi=True), L) or not veq(o.keys(), m_keys(L)) or len(o) != len(m_keys(L)) or k in o:
+            return 'epilogue_del'
+        if not veq(list(reversed(o)), list(reversed(m_keys(L)))):
+            return 'epilogue_reversed'
+    if o.items(multi=True) or len(o) or list(o):
+        return 'epilogue_not_empty'
     return None
 
 
@@ -492,6 +517,9 @@ def _step_body(cls, name, n, gen, kind, nv, ks, vals, v, w, light):
         cl = eq_ok(o, L, cls)
         if cl:
             return fail(cl, name)
+        cl = stress_epilogue(o, L, [kk, kk2] + [K(x) for x in ks[:n]])
+        if cl:
+            return fail(name + '_then_' + cl, 'kind=%d nv=%d' % (kind, nv))
     return done(True, op=name, n=n, cls=cls.__name__, gen=gen, kind=kind, values='symbolic' if light else 'unique tokens')
 
 
@@ -544,6 +572,9 @@ def _step2_body(cls, name, name_b, n, kind, nv, kind_b, nv_b, ks, nids, nb):
     cl = eq_ok(o, L, cls)
     if cl:
         return fail(cl, name + ',' + name_b)
+    cl = stress_epilogue(o, L, [kk, kk2, kk3] + [K(x) for x in ks[:n]])
+    if cl:
+        return fail(name + '_' + name_b + '_then_' + cl)
     return done(True, op=name, op_b=name_b, n=n, cls=cls.__name__)
 
 
